@@ -12,7 +12,7 @@
 From Coq Require Import ZArith QArith String List Lia Lqa.
 From QS Require Import theories.Num theories.Position theories.Portfolio theories.Fees theories.Broker theories.Clock
   theories.Sizer theories.PCM theories.Backtest theories.Spec proofs.Ledger proofs.PcmProofs proofs.BacktestProofs
-  proofs.Refinement proofs.SpecBroker proofs.SpecRun proofs.SpecProgress proofs.SpecRows.
+  proofs.Refinement proofs.SpecBroker proofs.SpecRun proofs.SpecProgress proofs.SpecRows proofs.SpecProgressAll.
 Import ListNotations.
 Open Scope Z_scope.
 
@@ -73,6 +73,26 @@ Theorem every_session_follows_the_rules_from_its_allocations :
       pending_of (ss_broker s_end) = st_pending st.
 Proof. exact session_follows_rules. Qed.
 Print Assumptions every_session_follows_the_rules_from_its_allocations.
+
+(** ... unconditionally (no "does not raise" premise) on markets that quote every asset the session can
+    ever look at positively at every clock instant *)
+Theorem every_session_follows_the_rules_on_quoted_markets :
+  forall cfg market tr,
+    alpha_ok cfg -> Exchange.tod (c_start cfg) <= 52200 ->
+    (forall t k, In (t, k) (flat_map (day_events false false) (bdays (c_start cfg) (c_end cfg))) ->
+                 quoted (all_assets cfg) (market t)) ->
+    run cfg market = Ok tr ->
+    tr_noerr tr /\
+    exists sched s_end st days,
+      schedule_of cfg = Ok sched /\ end_state cfg market = Some s_end /\
+      spec_run_rows (spec_base cfg sched) market (tr_allocs tr) = Some (st, [], days) /\
+      tr_fills tr = spec_fills days /\
+      Forall2 same_equity (tr_equity tr) (spec_equity days) /\
+      (cash_of pid (ss_broker s_end) == st_cash st)%Q /\
+      held_of (ss_broker s_end) = st_hold st /\
+      pending_of (ss_broker s_end) = st_pending st.
+Proof. exact any_session_follows_rules_quoted. Qed.
+Print Assumptions every_session_follows_the_rules_on_quoted_markets.
 
 (** the pieces of that proof that are of independent interest *)
 
